@@ -307,9 +307,18 @@ def task_roundtrip(t):
     names = names_for(3, env.SEED)
     U = Universe(names)
     order = sweep.orders(names)[oi]
-    bdd = S.new_autoref(order) if which == 'autoref' else S.new_bdd(order)
-    refs, b = sweep.build_all(bdd, U, hold=(which != 'autoref'))
-    hs = {f: bdd._add_int(r) for f, r in refs.items()} if which == 'autoref' else refs
+    which, _, hist = which.partition(':')
+    if hist:
+        # a manager with a history: node numbers re-used / nodes rewritten in place
+        try:
+            bdd, hs = sweep.make_history(hist, order, U, None, which == 'autoref')
+        except Violation as v:
+            rec('context:' + v.what, v.what, dict(task=t))
+            return rep
+    else:
+        bdd = S.new_autoref(order) if which == 'autoref' else S.new_bdd(order)
+        refs, b = sweep.build_all(bdd, U, hold=(which != 'autoref'))
+        hs = {f: bdd._add_int(r) for f, r in refs.items()} if which == 'autoref' else refs
     for f, u in hs.items():
         if focus is not None and f != focus:
             continue
@@ -353,6 +362,8 @@ def plan(tier):
                     ts.append(('f', fam, oi, which, si, ns, tier, None))
         for oi in range(6):
             ts.append(('r', oi, ('bdd', 'autoref')[oi % 2], None))
+            ts.append(('r', oi, ('autoref', 'bdd')[oi % 2] + ':' + ('K1', 'K2', 'rev')[oi % 3],
+                       None))
     else:
         for fam in fams:
             for oi in range(0, 24, 2):
@@ -363,6 +374,8 @@ def plan(tier):
         for oi in range(6):
             for which in ('bdd', 'autoref'):
                 ts.append(('r', oi, which, None))
+                for hist in ('K1', 'K2', 'rev'):
+                    ts.append(('r', oi, which + ':' + hist, None))
     return ts
 
 
